@@ -121,6 +121,26 @@ func checkC16(r *harness.Run) harness.Coverage {
 			}
 		}
 	}
+	// strings assembled by the library (raw strings with an escaped quote, joins, reversals, hash keys, to_string)
+	// from non-ASCII parts: every string in a result must be valid UTF-8 and survive a JSON round trip
+	strDocs := univ.Js(`{"a":"é😀","b":["x","日","z"],"c":"–","d":{"é":"日本","😀":["–"]}}`, `{"a":"–","b":["é","–"],"c":"é","d":{}}`)
+	for _, text := range []string{"'l\\'été'", "'\\'é'", "'é\\''", "'日\\'😀\\'–'", "['é\\'', a]", "{\"é\\\"\": 'é\\''}", "`\"é\\n😀\"`", "join('–', b)", "join('é', b)", "join('😀', b)", "join(c, b)", "join(a, b)", "join('', b)",
+		"reverse(a)", "reverse(c)", "reverse('é\\'–')", "to_string(a)", "to_string(b)", "to_string(@)", "to_string(d)", "keys(d)", "values(d)", "sort(b)", "max(b)", "min(b)", "sort(keys(d))", "join('–', keys(d))", "join(c, sort(keys(d)))",
+		"{\"é\": a, \"–\": c}", "d.\"é\"", "d.\"😀\"[0]", "b[*].join('–', [@, @])", "map(&join('é', [@, 'é\\'']), b)", "[a, c] | join('–', @)", "not_null(c, a)", "to_array(c)", "merge(d, {\"–\": c})", "b[?@ == '日']", "b[?@ != 'é\\'']",
+		"sort_by(b, &@)", "max_by(b, &@)", "starts_with(a, 'é') && a", "contains(a, '😀') && reverse(a)", "type(c) == 'string' && c"} {
+		jp, cerr, pn := impl.Compile(text)
+		if pn != nil || cerr != nil {
+			continue // acceptance is C04's and C14's business
+		}
+		e := exprCase{text: text}
+		for _, d := range strDocs {
+			res, serr, spn := impl.Search(jp, model.Copy(d))
+			edgeCases++
+			if spn == nil && serr == nil {
+				on(0, &e, d, res, nil)
+			}
+		}
+	}
 	r.Note("edge_literal_cases", edgeCases)
 	for _, part := range []struct {
 		f    *univ.Fragment
